@@ -200,8 +200,9 @@ func relType(t types.Type) string {
 	return types.TypeString(t, func(p *types.Package) string { return p.Path() })
 }
 
-// genResolverShared lists the fields of the three resolver structs, every
-// write to one of them outside a composite literal, and every package-level
+// genResolverShared lists the fields of the three resolver structs (the struct
+// type of each resolver package that implements resolve.Resolver, whatever its
+// name), every write to one of them outside a constructor, and every package-level
 // variable of the resolver packages (and util/resolve) that some function
 // other than init writes (assignment, index assignment, append-assignment,
 // delete, ++/--, address taken, or a pointer-receiver method call on a
